@@ -46,6 +46,71 @@ def check(model: Model, rep: Report, tier: str):
     with rep.isolated():
         for fn, only in ((q1, {"C16.Q1"}), (q3, {"C16.Q3"}), (q4_q5, {"C16.Q4"}), (q9, {"C16.Q9"})):
             share_rule(rep, model, fn, "C17.Y9", txt, only_rules=only)
+    with rep.isolated():
+        y10(model, rep)
+    from .c03 import h6
+    from ..resolve import CallGraph
+    with rep.isolated():
+        h6(model, rep, CallGraph(model), keep=lambda h: "repetition_code" in h.loc or "connectivity" in h.loc, rule="C17.Y11")
+
+
+def y10(model: Model, rep: Report):
+    """The number of layers a consumer walks is the number of layers there are."""
+    rep.rule("C17.Y10", "gate_sequence_count == len(the layer list that the positional accessors get_gate_sequence_indices / get_park_sequence_indices / "
+                        "get_gate_sequence_at_index subscript): every consumer walks `range(gate_sequence_count)`, so a count that skips placeholder layers "
+                        "leaves trailing gates unexercised")
+    impls = [f for f in model.all_functions() if f.name == "gate_sequence_count" and f.cls is not None and "abstractmethod" not in f.decorators]
+    rep.floor("gate_sequence_count implementations", len(impls), 2)
+
+    def canon(K, name):
+        """follow trivial property ``return self._x``"""
+        seen = set()
+        while name not in seen:
+            seen.add(name)
+            g = K.resolve(name)
+            if g is None or g.kind != "property":
+                break
+            try:
+                v = Evaluator(model, inline_methods=False).value_of(g, self_cls=K)
+            except Unsupported:
+                break
+            if v is not None and v[0] == "attr" and v[1] == sym(g.self_name):
+                name = v[2]
+            else:
+                break
+        return name
+    for f in impls:
+        K = f.cls
+        try:
+            v = Evaluator(model, inline_methods=False).value_of(f, self_cls=K)
+        except Unsupported as e:
+            raise AnalysisError(f"{f.qualname}: value not derived ({e})")
+        s = sym(f.self_name)
+        ok = v is not None and v[0] == "call" and v[1] == "len" and len(v[2]) == 1 and v[2][0][0] == "attr" and v[2][0][1] == s
+        cont = canon(K, v[2][0][2]) if ok else None
+        indexed = set()
+        for sub in [K] + model.subclasses(K):
+            for an in ("get_gate_sequence_indices", "get_park_sequence_indices", "get_gate_sequence_at_index"):
+                g = sub.resolve(an)
+                if g is None or "abstractmethod" in g.decorators:
+                    continue
+                prm = [p for p in g.param_names if p != g.self_name]
+                from ..alias import _bindings
+                for n in ast.walk(g.node):
+                    if not (isinstance(n, ast.Subscript) and isinstance(n.slice, ast.Name) and n.slice.id in prm):
+                        continue
+                    base = n.value
+                    if isinstance(base, ast.Name):
+                        bs = _bindings(g.node, base.id)
+                        if len(bs) == 1 and bs[0] is not None:
+                            base = bs[0]
+                    if isinstance(base, ast.Attribute) and isinstance(base.value, ast.Name) and base.value.id == g.self_name:
+                        indexed.add(canon(g.cls, base.attr))
+        if not indexed:
+            raise AnalysisError(f"{K.name}: no positional accessor subscripts a layer list (shape not recognised)")
+        rep.check(ok and indexed == {cont}, "C17.Y10", f.qualname, f.loc, found=show(v) if v is not None else "no single value", required=f"len(self.{sorted(indexed)[0]})",
+                  what=f"consumers walk range(gate_sequence_count) but the positional accessors index {sorted(indexed)}: layers beyond the reported count are never "
+                       "constructed (their gates are exercised 0 times), or the walk runs past the list", detail="count")
 
 
 # ---------------------------------------------------------------------------------------------
